@@ -171,6 +171,10 @@ def run(case):
                     return E.to_action(self.actions[k], self.kind)
                 return E.to_action(self.actions[-1], self.kind)      # (beyond the compared prefix)
 
+        if a.get("fold") and not a.get("episode_length"):
+            # the environment has just been reset on ANOTHER fold and not stepped: the backtest must still run the fold it is given
+            A2.env.reset("whole")
+            res.tag("backtest-after-a-reset-on-another-fold")
         np.random.seed(case["seed_a"])
         try:
             track = A2.env.backtest(fold=E.fold_name(a), policy=Replay(a["actions"], a.get("action_type", "array64"), len(a["contracts"])))
